@@ -206,6 +206,13 @@ func runCheck(args []string) int {
 	if pd.ExcludeName != "" {
 		exclRe = regexp.MustCompile(pd.ExcludeName)
 	}
+	// a clause labelled [Cnn_name] belongs to property Cnn only: other checks neither prove nor count it
+	// (e.g. the segment-validity preconditions of the segment sinks, which only C05's functions can establish)
+	propTagRe := regexp.MustCompile(`:(C[0-9][0-9])_`)
+	foreignTag := func(name string) bool {
+		m := propTagRe.FindStringSubmatch(name)
+		return m != nil && m[1] != pd.ID
+	}
 	hooks := hooksByName(P, pd.Hooks)
 	var results []*FuncResult
 	var bindFails []*Obl
@@ -300,6 +307,9 @@ func runCheck(args []string) int {
 					if exclRe != nil && exclRe.MatchString(o.Name) {
 						continue
 					}
+					if foreignTag(o.Name) {
+						continue
+					}
 					if o.Kind == "pre@call" && !sk[o.Kind] && preCallRe != nil && !preCallRe.MatchString(o.Name) {
 						continue
 					}
@@ -339,6 +349,9 @@ func runCheck(args []string) int {
 				continue
 			}
 			if exclRe != nil && exclRe.MatchString(o.Name) {
+				continue
+			}
+			if foreignTag(o.Name) {
 				continue
 			}
 			keep = append(keep, o)
